@@ -15,6 +15,9 @@ while a:
     else: a = a[1:]
 d = tempfile.mkdtemp(prefix="sc_")
 os.rmdir(d)
+# evidence written while checking a patched tree must never stay in /verif/evidence
+evbak = tempfile.mkdtemp(prefix="sc_ev_")
+shutil.copytree("/verif/evidence", os.path.join(evbak, "evidence"))
 env = dict(os.environ, GOFLAGS="-mod=mod", GOPROXY="off", GOSUMDB="off", GOTOOLCHAIN="local")
 try:
     subprocess.run(["git", "-C", "/repo", "worktree", "add", "-q", d, "HEAD"], check=True)
@@ -41,3 +44,6 @@ finally:
     subprocess.run(["git", "-C", "/repo", "worktree", "remove", "--force", d])
     # leave /verif's generated facts and build pointing at /repo again
     subprocess.run(["/verif/check", props[0], "--tier", "quick"], cwd="/verif", stdout=subprocess.DEVNULL, stderr=subprocess.DEVNULL)
+    for f in os.listdir(os.path.join(evbak, "evidence")):
+        shutil.copy(os.path.join(evbak, "evidence", f), os.path.join("/verif/evidence", f))
+    shutil.rmtree(evbak, ignore_errors=True)
